@@ -26,6 +26,118 @@ type Item struct {
 	Sort   string
 	Assert *Term // assumption (when not a declaration)
 	Raw    string // raw SMT text (rare)
+	Def    string // non-empty: this assertion defines the symbol Def (directed for slicing)
+	syms   map[string]bool
+}
+
+func (it *Item) symbols() map[string]bool {
+	if it.syms == nil {
+		it.syms = map[string]bool{}
+		if it.Assert != nil {
+			it.Assert.symbols(it.syms)
+		}
+	}
+	return it.syms
+}
+
+// slice computes the cone of influence of the goal: definitions are followed from the defined symbol to
+// its definition only; other assumptions are kept when they mention a relevant symbol. Dropping
+// assumptions is sound (it can only turn a provable obligation into an undischarged one).
+var symMu sync.Mutex
+
+func sliceItems(items []Item, seeds map[string]bool) []bool {
+	symMu.Lock()
+	for i := range items {
+		items[i].symbols()
+	}
+	symMu.Unlock()
+	keep := make([]bool, len(items))
+	rel := map[string]bool{}
+	for s := range seeds {
+		rel[s] = true
+	}
+	defOf := map[string][]int{}
+	var general []int
+	for i := range items {
+		it := &items[i]
+		if it.Assert == nil {
+			continue
+		}
+		if it.Def != "" {
+			defOf[it.Def] = append(defOf[it.Def], i)
+		} else {
+			general = append(general, i)
+		}
+	}
+	work := make([]string, 0, len(rel))
+	for s := range rel {
+		work = append(work, s)
+	}
+	addSyms := func(m map[string]bool) {
+		for s := range m {
+			if !rel[s] {
+				rel[s] = true
+				work = append(work, s)
+			}
+		}
+	}
+	for {
+		for len(work) > 0 {
+			s := work[len(work)-1]
+			work = work[:len(work)-1]
+			for _, i := range defOf[s] {
+				if !keep[i] {
+					keep[i] = true
+					addSyms(items[i].symbols())
+				}
+			}
+		}
+		changed := false
+		for _, i := range general {
+			if keep[i] {
+				continue
+			}
+			for sym := range items[i].symbols() {
+				if rel[sym] && !builtinSym(sym) {
+					keep[i] = true
+					addSyms(items[i].symbols())
+					changed = true
+					break
+				}
+			}
+		}
+		if !changed && len(work) == 0 {
+			break
+		}
+	}
+	for i := range items {
+		it := &items[i]
+		if it.Assert == nil {
+			if it.Raw != "" {
+				keep[i] = true
+			} else {
+				keep[i] = rel[it.Name]
+			}
+		}
+	}
+	return keep
+}
+
+func builtinSym(s string) bool {
+	switch s {
+	case "and", "or", "not", "=>", "=", "ite", "select", "store", "true", "false", "bvadd", "bvsub", "bvmul", "bvslt", "bvsle", "bvsgt", "bvsge",
+		"bvult", "bvule", "bvugt", "bvuge", "+", "-", "<", "<=", "s.ref", "s.off", "s.len", "s.cap", "mk-slice", "mk-iface", "i.tag", "i.ref",
+		"strlen", "strarr", "strempty", "concat", "bvand", "bvor", "bvxor", "bvnot", "bvneg", "bvshl", "bvlshr", "bvashr", "bvudiv", "bvurem", "bvsdiv", "bvsrem",
+		"slice_ok", "iface_ok", "ref_ok", "str_ok", "forall", "exists", "Int", "Bool", "Array", "_", "BitVec", "!", ":pattern", "as", "const", "Str", "Slice", "Iface", "extract", "zero_extend", "sign_extend":
+		return true
+	}
+	if strings.HasPrefix(s, "#x") || strings.HasPrefix(s, "#b") || strings.HasPrefix(s, "T_") || strings.HasPrefix(s, "mk.T_") || strings.HasPrefix(s, "inv.T_") {
+		return true
+	}
+	if len(s) > 0 && (s[0] >= '0' && s[0] <= '9') {
+		return true
+	}
+	return false
 }
 
 type Obligation struct {
@@ -99,7 +211,7 @@ func (vc *VC) Define(hint string, t *Term) *Term {
 		return t
 	}
 	s := vc.Fresh(hint, t.Sort)
-	vc.items = append(vc.items, Item{Assert: App("=", SBool, s, t)})
+	vc.items = append(vc.items, Item{Assert: App("=", SBool, s, t), Def: s.Name})
 	return s
 }
 
@@ -174,7 +286,20 @@ func (o *Obligation) SMT(withModel bool) string {
 	vc := o.vc
 	var body strings.Builder
 	items := vc.items[:o.itemPos]
-	for _, it := range items {
+	seeds := map[string]bool{}
+	o.Guard.symbols(seeds)
+	o.Goal.symbols(seeds)
+	if o.Extra != nil {
+		o.Extra.symbols(seeds)
+	}
+	for _, t := range o.Inputs {
+		t.symbols(seeds)
+	}
+	keep := sliceItems(items, seeds)
+	for i, it := range items {
+		if !keep[i] {
+			continue
+		}
 		switch {
 		case it.Raw != "":
 			body.WriteString(it.Raw + "\n")
